@@ -88,13 +88,13 @@ inductive Op where
   | regen (dst : Name) (c : Cid)
   | read (n : Name) (checked : Bool)
   | readNewest (cands : List Name)
-  deriving Repr
+  deriving DecidableEq, Repr
 
 inductive Prog where
   | halt (ok : Bool)
   | op (o : Op) (next : Prog)
   | ifStat (n : Name) (yes no : Prog)
-  deriving Repr
+  deriving DecidableEq, Repr
 
 inductive TS where
   | unborn
